@@ -106,9 +106,11 @@ Spline<2, double> reparameterize_spline(
     const auto [v2opt, aopt, status] = lp2d::solve(-1, 0, ineq);
 
     if (status == lp2d::Status::Optimal) {
-      v2max(i) = v2opt;
+      v2max(i) = std::max<double>(0, v2opt);  // (y, a) = (0, 0) is always feasible
     } else if (status == lp2d::Status::DualInfeasible) {
       v2max(i) = inf;
+    } else {
+      v2max(i) = 0;
     }
   }
 
@@ -148,12 +150,14 @@ Spline<2, double> reparameterize_spline(
     if (ai != inf) {
       const double dt = std::abs(ai) < eps ? ds / vi : (-vi + std::sqrt(std::max<double>(eps, vi2 + 2 * ds * ai))) / ai;
 
-      // add segment to spline
-      ret.concat_global(Spline<2, double>{
-        dt,
-        Eigen::Vector2d{dt * vi / 2, dt * (dt * ai + vi) / 2},
-        si,
-      });
+      // add segment to spline (a clamped speed that is decelerated further takes no time)
+      if (dt > 0) {
+        ret.concat_global(Spline<2, double>{
+          dt,
+          Eigen::Vector2d{dt * vi / 2, dt * (dt * ai + vi) / 2},
+          si,
+        });
+      }
 
       // update squared velocity with value at end of new segment
       v2m = ai == inf ? vi2 : std::max<double>(eps, vi2 + 2 * ai * ds);
